@@ -12,18 +12,28 @@
 (***************************************************************************)
 EXTENDS AssetOps, Json
 
-CONSTANTS AmtMax, NPush, NDerived, EqImpl(_, _), Emit
+CONSTANTS AmtMax, NPush, NDerived, EqImpl(_, _), Emit, Focus
 
 Amounts == (0 - AmtMax)..AmtMax
 
 P1 == <<1>>          \* a policy id (bytes)
 NA == <<97>>         \* asset name "a"
 NB == <<98>>         \* asset name "b"
+PA == <<1, 97>>      \* the bytes of P1 followed by NA: a name-only class whose "policy ++ name" bytes are those of
+                     \* Defined(P1, NA) - distinct classes that any flattened key would confuse
 
-Pushes ==
+\* Focus = "splice": only the classes whose flattened bytes coincide (and the naked asset), amounts 1 and -1, so
+\* that longer derivations (a value holding several of them, then conversions and differences) stay enumerable
+SplicePushes ==
+    {[op |-> "from_naked", n |-> FromInt(1)]}
+    \cup {[op |-> "from_named", name |-> PA, n |-> FromInt(a)] : a \in {1}}
+    \cup {[op |-> "from_defined", policy |-> P1, name |-> NA, n |-> FromInt(a)] : a \in {1, 0 - 1}}
+    \cup {[op |-> "from_defined", policy |-> PA, name |-> <<>>, n |-> FromInt(a)] : a \in {1}}
+
+AllPushes ==
     {[op |-> "empty"]}
     \cup {[op |-> "from_naked", n |-> FromInt(a)] : a \in Amounts}
-    \cup {[op |-> "from_named", name |-> nm, n |-> FromInt(a)] : nm \in {<<>>, NA}, a \in Amounts}
+    \cup {[op |-> "from_named", name |-> nm, n |-> FromInt(a)] : nm \in {<<>>, NA, PA}, a \in Amounts}
     \cup {[op |-> "from_defined", policy |-> p, name |-> nm, n |-> FromInt(a)] :
               p \in {<<>>, P1}, nm \in {<<>>, NA, NB}, a \in Amounts}
     \cup {[op |-> "from_asset", policy |-> p, name |-> nm, n |-> FromInt(a)] :
@@ -31,6 +41,8 @@ Pushes ==
               nm \in {NoBytes, SomeBytes(NA)}, a \in Amounts \cap {0, 1}}
     \cup {[op |-> "from_class", class |-> c, n |-> FromInt(a)] :
               c \in {Naked, Defined(P1, NB)}, a \in Amounts \cap {-1, 0}}
+
+Pushes == IF Focus = "splice" THEN SplicePushes ELSE AllPushes
 
 Derived(n) ==
     {[op |-> o, i |-> i, j |-> j] : o \in {"add", "sub"}, i \in 1..n, j \in 1..n}
